@@ -100,7 +100,7 @@ RELEVANT = {
 
 def signature(clause, feats):
     """clause + the input features that known findings are keyed on"""
-    keep = [f for f in feats if f in ("dupassign", "foralleff", "lopen-cond", "lopen-tgoal")]
+    keep = [f for f in feats if f in ("dupassign", "foralleff", "lopen-cond", "lopen-tgoal", "empty-cond-interval")]
     return clause + ("|" + ",".join(keep) if keep else "")
 
 
